@@ -157,8 +157,8 @@ theorem envPrepend_lifts_expand (c : Nat) (hc : c ≠ 36) (append fwd : Bool) (v
   have hnd : (36 : Nat) ∉ join [c] (applyL append fwd [v] oldl) :=
     not_mem_join c 36 _ (Ne.symm hc) hgood
   unfold envPrepend
-  simp [hsw, hew, henv, hexp, hsplitv, setEnvI]
-  rw [split_join_filter c oldl hold, interp_no_dollar env _ _ hnd]
+  simp [hsw, hew, henv, hexp, interp_no_dollar env _ v hv.2.2, hsplitv]
+  rw [split_join_filter c oldl hold]
 
 /-- an undefined `${VAR}` (no default) makes envPrepend / envAppend refuse in setup mode -/
 theorem envPrepend_refuses (append : Bool) (var value delim : Str) (env : Env)
@@ -167,5 +167,36 @@ theorem envPrepend_refuses (append : Bool) (var value delim : Str) (env : Env)
     envPrepend append true var value delim env = .runtimeError := by
   unfold envPrepend
   simp [hsw, hew, hexp]
+
+end EupsModel.PathAlg
+
+namespace EupsModel.PathAlg
+
+/-- pieces of the list a variable already holds: non-empty and free of the delimiter — they may hold `$` text -/
+def OldPiece (c : Nat) (e : Str) : Prop := e ≠ [] ∧ c ∉ e
+
+theorem split_join_filter_old (c : Nat) (l : List Str) (h : ∀ e ∈ l, OldPiece c e) :
+    (split [c] (join [c] l)).filter (fun el => !decide (el = [])) = l := by
+  cases l with
+  | nil => simp [join, split, splitGo]
+  | cons a rest =>
+    rw [split_join c _ (by simp) (fun e he => (h e he).2)]
+    apply List.filter_eq_self.mpr
+    intro e he
+    simpa using (h e he).1
+
+/-- `envPrepend_lifts` with the weakest hypothesis on the elements the list already has (repair of D123: they are
+stored as they are, whatever `${..}` text they hold) -/
+theorem envPrepend_lifts_old (c : Nat) (append fwd : Bool) (var v : Str) (oldl : List Str) (env : Env)
+    (hold : ∀ e ∈ oldl, OldPiece c e) (hv : GoodPiece c v)
+    (henv : (env.get var).getD [] = join [c] oldl) :
+    envPrepend append fwd var v [c] env = .ok (env.set var (join [c] (applyL append fwd [v] oldl))) := by
+  have hsplitv : split [c] v = [v] := by
+    have := split_join c [v] (by simp) (by intro e he; simp at he; subst he; exact hv.2.1)
+    simpa [join] using this
+  unfold envPrepend
+  simp [startsWith_good c v hv, endsWith_good c v hv, henv,
+    expand_no_dollar env v hv.2.2, interp_no_dollar env _ v hv.2.2, hsplitv]
+  rw [split_join_filter_old c oldl hold]
 
 end EupsModel.PathAlg
